@@ -30,7 +30,7 @@ BIG = [2**31 - 1, 2**31, 2**32, 2**32 + 1, 2**53 + 1, 2**63 - 1, 2**63, 2**64, 2
 
 
 def is_int_logic(logic):
-    return logic in ("QF_LIA", "QF_UFLIA", "QF_IDL", "QF_ALIA", "QF_UFIDL")
+    return logic in ("QF_LIA", "QF_UFLIA", "QF_IDL", "QF_ALIA", "QF_UFIDL", "QF_AUFLIA")
 
 
 def has_uf(logic):
@@ -38,7 +38,7 @@ def has_uf(logic):
 
 
 def has_arrays(logic):
-    return logic in ("QF_AX", "QF_ALIA", "QF_ALRA")
+    return logic in ("QF_AX", "QF_ALIA", "QF_ALRA", "QF_AUFLIA")
 
 
 def is_dl(logic):
@@ -484,6 +484,106 @@ def gen_uf(rng, logic, engine):
                 big=None, features=["uf"], family="uf")
 
 
+def gen_arrweak(rng, logic, engine):
+    """Arrays: store chains, reads at equal-but-syntactically-different index terms, index classes with three and
+    more members one of which has many parents (so that it becomes the E-graph root), store indices compared with
+    members of the class, extensionality (array (dis)equalities).  Provokes the array solver's read-over-weak-
+    equivalence conflicts/lemmas and weak-congruence lemmas.  Logics: QF_AX, QF_ALIA, QF_ALRA, QF_AUFLIA."""
+    ax = logic == "QF_AX"
+    isort = "Index" if ax else ("Int" if is_int_logic(logic) else "Real")
+    esort = "Elem" if ax else isort
+    decls = []
+    if ax:
+        decls += ["(declare-sort Index 0)", "(declare-sort Elem 0)"]
+    narr = rng.randint(1, 3)
+    arrs = ["a%d" % i for i in range(narr)]
+    for a in arrs:
+        decls.append("(declare-fun %s () (Array %s %s))" % (a, isort, esort))
+    iarrs = ["ii", "jj"]
+    for a in iarrs:
+        decls.append("(declare-fun %s () (Array %s %s))" % (a, isort, isort))
+    icon = ["u", "k", "m", "n", "w"][: rng.randint(3, 5)]
+    for c in icon:
+        decls.append("(declare-fun %s () %s)" % (c, isort))
+    econ = ["v", "e", "d"][: rng.randint(1, 3)]
+    for c in econ:
+        decls.append("(declare-fun %s () %s)" % (c, esort))
+    uf = logic == "QF_AUFLIA"
+    if uf:
+        decls.append("(declare-fun f (%s) %s)" % (isort, isort))
+    # index terms: constants and compound terms of index sort
+    iterms = list(icon)
+    for _ in range(rng.randint(2, 4)):
+        x = rng.random()
+        base = rng.choice(iterms)
+        if uf and x < 0.4:
+            iterms.append("(f %s)" % base)
+        elif not ax and x < 0.3:
+            iterms.append("(+ %s %d)" % (base, rng.randint(1, 2)))
+        else:
+            iterms.append("(select %s %s)" % (rng.choice(iarrs), base))
+    iterms = list(dict.fromkeys(iterms))
+    # array terms: store chains
+    aterms = list(arrs)
+    for _ in range(rng.randint(1, 4)):
+        aterms.append("(store %s %s %s)" % (rng.choice(aterms), rng.choice(iterms), rng.choice(econ)))
+    aterms = list(dict.fromkeys(aterms))
+    body = []
+    # padding reads give one index term many parents: the E-graph prefers it as class root
+    root = rng.choice(iterms)
+    npad = rng.randint(0, 8)
+    for i in range(npad):
+        decls.append("(declare-fun c%d () (Array %s %s))" % (i, isort, esort))
+        decls.append("(declare-fun p%d () %s)" % (i, esort))
+        body.append("(assert (not (= (select c%d %s) p%d)))" % (i, root, i))
+
+    def ieq():
+        a, b = rng.sample(iterms, 2)
+        return "(= %s %s)" % (a, b)
+
+    def rd():
+        return "(select %s %s)" % (rng.choice(aterms), rng.choice(iterms))
+
+    def atom():
+        x = rng.random()
+        if x < 0.35:
+            return ieq()
+        if x < 0.7:
+            return "(= %s %s)" % (rd(), rd() if rng.random() < 0.7 else rng.choice(econ))
+        if x < 0.85 and len(aterms) > 1:
+            a, b = rng.sample(aterms, 2)
+            return "(= %s %s)" % (a, b)
+        return "(= %s %s)" % (rng.choice(iterms), root)
+    # the core pattern: I = J (different terms), a[I] /= chain(a)[J], store indices /= some member of the class
+    for _ in range(rng.randint(1, 3)):
+        I, J = rng.sample(iterms, 2)
+        A = rng.choice(aterms)
+        B = rng.choice([t for t in aterms if t.startswith("(store")] or aterms)
+        body.append("(assert (= %s %s))" % (I, J) if rng.random() < 0.6 else "(assert (or (= %s %s) %s))" % (I, J, atom()))
+        body.append("(assert (not (= (select %s %s) (select %s %s))))" % (A, I, B, J))
+        other = rng.choice(iterms)
+        kk = rng.choice(iterms)
+        if other != kk:
+            body.append("(assert (not (= %s %s)))" % (kk, other))
+        body.append("(assert (or (= %s %s) (= %s %s)))" % (I, rng.choice(iterms), I, rng.choice(iterms)))
+    for _ in range(rng.randint(3, 14)):
+        lits = []
+        for _ in range(rng.choice([1, 2, 2, 3])):
+            a = atom()
+            lits.append("(not %s)" % a if rng.random() < 0.45 else a)
+        body.append("(assert %s)" % (lits[0] if len(lits) == 1 else "(or %s)" % " ".join(lits)))
+    rng.shuffle(body)
+    incremental = engine == "incr" or rng.random() < 0.25
+    if engine == "itp":
+        incremental = False
+    if incremental and len(body) > 6:
+        cut = rng.randint(3, len(body) - 2)
+        body = body[:cut] + ["(check-sat)", "(push 1)"] + body[cut:] + ["(check-sat)", "(pop 1)"]
+    body.append("(check-sat)")
+    return dict(text="\n".join(_hdr(engine, logic, decls) + body + ["(exit)"]) + "\n", logic=logic, engine=engine,
+                big=None, features=["arrweak"], family="arrweak")
+
+
 def gen(rng, logic, engine=None, big=None, family=None):
     """big in {None,'big','many'}; family in {None,'random','sched','grid','parity'}"""
     engine = engine or rng.choice(ENGINES)
@@ -495,6 +595,10 @@ def gen(rng, logic, engine=None, big=None, family=None):
             family = "sched" if x < 0.6 else "random"
         elif logic == "QF_UF":
             family = "uf" if x < 0.8 else "random"
+        elif logic == "QF_AUFLIA":
+            family = "arrweak"
+        elif has_arrays(logic):
+            family = "arrweak" if x < 0.6 else "random"
         else:
             family = "random"
     if family == "sched":
@@ -505,6 +609,8 @@ def gen(rng, logic, engine=None, big=None, family=None):
         return gen_parity(rng, logic, engine)
     if family == "uf":
         return gen_uf(rng, logic, engine)
+    if family == "arrweak":
+        return gen_arrweak(rng, logic, engine)
     r = gen_random(rng, logic, engine, big)
     r["family"] = "random"
     return r
